@@ -127,17 +127,28 @@ def run(ctx):
                     kw["tol"] = 1e-7
             if num_grad:
                 kw["num_grad"] = True
-            mask, prior_objs = [], None
+            mask, prior_objs, denoted = [], None, []
             if prior_mode != "none":
                 which = sorted(rng.sample(range(npar), rng.randint(1, npar))) if prior_mode == "dict" else list(range(npar))
-                entries = []
+                entries, denoted = [], []
                 for j in which:
                     if rng.random() < 0.5:
-                        entries.append("%.2f(%d)" % (rng.uniform(0.5, 2.0), rng.randint(5, 40)))
+                        # 'value(err)' strings in both documented notations; the numbers they denote are fixed HERE, not read back from the library
+                        if rng.random() < 0.5:
+                            digits = rng.randint(5, 40)
+                            sval = "%.2f" % rng.uniform(0.5, 2.0)
+                            entries.append("%s(%d)" % (sval, digits))
+                            denoted.append((Fraction(sval), Fraction(digits, 100)))
+                        else:
+                            sval = rng.choice(["%.1f", "%.2f"]) % rng.uniform(0.5, 2.0)
+                            serr = rng.choice(["0.%d" % rng.randint(1, 9), "0.%02d" % rng.randint(5, 60), "1.%d" % rng.randint(0, 5)])
+                            entries.append("%s(%s)" % (sval, serr))
+                            denoted.append((Fraction(sval), Fraction(serr)))
                     else:
                         po = pe.cov_Obs(rng.uniform(0.5, 2.0), rng.uniform(0.05, 0.4) ** 2, "pr%d_%d" % (i, j))
                         po.gamma_method()
                         entries.append(po)
+                        denoted.append(None)
                 kw["priors"] = entries if prior_mode == "list" else dict(zip(which, entries))
                 mask = which
             with warnings.catch_warnings():
@@ -164,7 +175,7 @@ def run(ctx):
         scale = max([1.0] + [abs(float(p.value)) for p in res.fit_parameters] + [float(np.max(np.abs(o.deltas[n]))) for o in ops for n in o.deltas])
         fit_t = "(mkFit %s [%s] %s [%s] [%s] [%s] %d%%nat)" % (
             mat_term(A), "; ".join(qlit(float(o.value)) for o in y_all), mat_term([[float(x) for x in row] for row in W]),
-            "; ".join("%d%%nat" % j for j in mask), "; ".join(qlit(float(p.value)) for p in pri), "; ".join(qlit(float(p.dvalue)) for p in pri), npar)
+            "; ".join("%d%%nat" % j for j in mask), "; ".join(qlit(dn[0] if dn else float(p.value)) for p, dn in zip(pri, denoted)), "; ".join(qlit(dn[1] if dn else float(p.dvalue)) for p, dn in zip(pri, denoted)), npar)
         term = "(mkFitCase %s [%s] [%s] %s %s %s %s)" % (fit_t, "; ".join(obsutil.obs_term(o) for o in ops), "; ".join(obsutil.obs_term(p) for p in res.fit_parameters),
                                                       qlit(float(res.chisquare)), zlit(int(res.dof)), rt, qlit(scale * (2.0 ** -20 if method == "Levenberg-Marquardt" else 2.0 ** -9)))
         descr = {"family": fam, "method": method, "num_grad": num_grad, "correlated": corr_mode, "priors": prior_mode, "npar": npar, "npoints": len(y_all), "shared_ensemble": shared,
